@@ -263,7 +263,7 @@ type callEnv struct {
 	dir    string
 	remote *remoteCommit
 	// versions known for SetActiveSchemaVersion
-	versions []string
+	versions   []string
 	importFile string
 }
 
